@@ -225,7 +225,11 @@ impl NameCompressor {
 
             // Look up the entry in the message contents.
             let (pos, len) = (self.pos[i] as usize, self.len[i] as usize);
-            debug_assert_ne!(len, 0);
+            if len == 0 {
+                // An unused entry: its hash and parent fields are zero, which
+                // are also a possible label hash and a possible parent index.
+                continue;
+            }
             let mut entry = contents.get(pos..pos + len)
                 .unwrap_or_else(|| panic!("'contents' did not correspond to the name compressor state"));
 
@@ -412,7 +416,11 @@ impl NameCompressor {
 
             // Look up the entry in the message contents.
             let (pos, len) = (self.pos[i] as usize, self.len[i] as usize);
-            debug_assert_ne!(len, 0);
+            if len == 0 {
+                // An unused entry: its hash and parent fields are zero, which
+                // are also a possible label hash and a possible parent index.
+                continue;
+            }
             let entry = contents.get(pos..pos + len)
                 .unwrap_or_else(|| panic!("'contents' did not correspond to the name compressor state"));
 
